@@ -163,6 +163,8 @@ class Policy:
         """all[None] + all[cat] (only what the scheme accepts) + scheme[None] + scheme[cat]"""
         H = self.handlers[scheme]
         accepted = set(H.setting_kwds) | (set(ROUNDS_OPTIONS) if "rounds" in H.setting_kwds else set())
+        # (documented using() options that the hasher does not list among its setting_kwds)
+        accepted |= {"bcrypt_sha256": {"version"}, "django_bcrypt_sha256": {"version"}}.get(getattr(H, "name", scheme), set())
         out = {}
         for src, filt in (("all", True), (scheme, False)):
             for c in (None, cat) if cat else (None,):
